@@ -19,7 +19,8 @@ EXPLANATION = (
     'functions may have a possibly-native left operand and a value-class right operand (positive control: VDB); (C20.4) guards: the '
     'XIRR/XNPV length-mismatch guard dominates the computation and gives #NUM!, non-convergence is converted to #NUM!; (C20.5) '
     'shape of the closed forms: NPV discounts flow i (0-based) by (1+rate)^(i+1), XNPV by (1+rate)^((d_i-d_0)/365), SLN = '
-    '(cost-salvage)/life.')
+    '(cost-salvage)/life.'
+    ' (C20.6) NPV on witness flows incl. zero flows first, in the middle and last, and SLN, as the evaluator calls them: a zero flow occupies a period.')
 NOT_DECIDED = 'the defining equations as numeric identities, root properties, linearity'
 TRUSTED = ['numpy_financial.pv/pmt/irr parameter conventions', 'scipy.optimize.newton signature']
 
